@@ -71,6 +71,41 @@ CLAIMS.update({
     ),
 })
 
+CLAIMS.update({
+    "C05": dict(
+        technique="MIR-based static analysis: finite-table extraction and comparison (F5) against the tables stated by the property, result-consumption (F3), who-may-call on exit/stdout/catch_unwind, exactly-once dominance (F2)",
+        engine="mirfacts+sa",
+        text="Decides the command-line contract for all paths of the two binaries: the 21 problem names printed (AsRef x EnumIter x `{}-{}`) are exactly "
+        "those parsed (first hyphen, lower-casing, TryFrom tables) and equal the list of the statement; each (query, semantics) pair reaches the solver "
+        "type the statement names and each semantics group its base-semantics encoder; no Result is dropped in the binaries; one exit(1) on the Err arm, "
+        "no catch_unwind; stdout is reached only by answer writes, println! of solver-free commands and the logger (forced off by the wrapper, whose "
+        "injected flags all exist in the clap definitions); the answer is written exactly once after the solver returned, in the fixed grammar. "
+        "NOT decided: that the printed status/witness is the semantically right one (C01-C04), clap's own behaviour.",
+        ref="4/C05",
+    ),
+    "C13": dict(
+        technique="regular-language inclusion by DFA product (relang) on the regex constants extracted from MIR, panic census with guard-idiom discharge (F8), guard dominance and small interval reasoning on the ICCMA reader (F4/F7)",
+        engine="mirfacts+sa+relang",
+        text="Decides for all input strings that the Aspartix declaration languages accepted by the two-stage regex readers lie between two fixed reference "
+        "languages (every identifier declaration accepted; nothing but one-word, non-digit-initial, dot-terminated declarations read), that arg/att "
+        "languages are disjoint, that stage-2 failures, unknown lines, late argument declarations and undeclared arguments are errors; and for all paths "
+        "reachable from both readers that every panic source is dominated by a recognised guard or is a confirmed table entry, that ICCMA indexes are "
+        "accepted only in 1..=n (n = the framework's own count), map to id k-1 in parsed direction, labels are 1..=n, content after a blank line is an "
+        "error. NOT decided: byte-exact faithfulness as a value fact beyond these clauses.",
+        ref="4/C13",
+    ),
+    "C14": dict(
+        technique="regular-language inclusion by DFA product (relang) of writer templates in the reader language, template tables (F5), tombstone-filter and order checks on the writer's loops",
+        engine="mirfacts+sa+relang",
+        text="Decides for all identifier labels that every line the Aspartix framework writer emits is accepted by the reader as the same kind of "
+        "declaration with the same names (capture groups are blanks+name+blanks and the consumer trims), that only live arguments and attacks are "
+        "written, arguments before attacks, attacker before attacked, one per line; and that the response writers emit exactly the fixed answer "
+        "grammar (`w` + ` {}`..., `[`..`,`..`]`, YES/NO) and flush. NOT decided: equality of the re-read framework as a value beyond grammar "
+        "inclusion plus the store invariants of C12.",
+        ref="4/C14",
+    ),
+})
+
 NOT_APPLICABLE = {
     "C19": "Merged arguments being indistinguishable under complete semantics is a semantic fact about a propagation algorithm over all graphs; "
     "no structural necessary condition of value remains for a static rule (DESIGN.md section 4/C19).",
@@ -94,7 +129,7 @@ def main():
                     "thorough_cmd": "./check %s --tier thorough" % pid,
                     "evidence_file": "evidence/%s.json" % pid,
                     "replay_cmd_template": "./check %s --replay {path}" % pid,
-                    "engine": "mirfacts+sa",
+                    "engine": c.get("engine", "mirfacts+sa"),
                     "level_claimed": {"category": "other", "text": c["text"], "design_ref": "DESIGN.md section " + c["ref"]},
                     "level_note": BASE_NOTE + c.get("note", ""),
                     "technique": c["technique"],
@@ -116,6 +151,7 @@ def main():
         },
         "engines": [
             {"name": "mirfacts", "path": "tools/mirfacts", "serves_properties": sorted(CLAIMS), "kind_free_text": "rustc_private driver dumping resolved MIR/ADT/impl facts as JSON (injected with RUSTC_WORKSPACE_WRAPPER under cargo +nightly check)"},
+            {"name": "relang", "path": "tools/relang", "serves_properties": ["C13", "C14"], "kind_free_text": "regex-automata based decision of inclusion / disjointness of regular languages (dense DFA product, all strings), with shortest witnesses"},
             {"name": "sa", "path": "sa", "serves_properties": sorted(CLAIMS), "kind_free_text": "Python rule engine: CFG, dominators, def-use/origin tracing, call graph, per-property rules"},
         ],
         "checks": checks,
